@@ -77,10 +77,10 @@ TABLE = {
 }
 
 SHORT = {
-    'C01': 'RNG-interposition reconstruction of samples + schema contracts + DKW/Hoeffding bands',
+    'C01': 'RNG-interposition reconstruction of samples (scipy / explicit kernel-sum quantile references) + schema contracts + DKW/Hoeffding bands',
     'C02': 'post-fit contract with independent recomputation of the correlation matrix',
     'C03': 'distribution-function law oracle (monotonicity, quadrature identity, Galois inverse) on every fitted model',
-    'C04': 'ground-truth recovery bands with exact binomial rule, closed-form exactness, explicit-sum KDE reference',
+    'C04': 'ground-truth recovery bands with exact binomial rule, closed-form exactness, explicit-sum KDE reference, RNG replay of the KDE resample',
     'C05': 'recorder probes on the selection functions + independent re-selection + configuration contracts',
     'C06': 'copula axioms + mpmath generator reference + batch/instance differentials on observed CDF calls',
     'C07': 'mpmath derivative reference + quadrature identities + batch/instance differentials on h and density',
@@ -89,14 +89,14 @@ SHORT = {
     'C10': 'post-fit / on-raise contract against O(n^2) tau-b and reference calibration, with fit histories',
     'C11': 'contract on select_copula (calibration, determinism, sharing, row order) + binomial recovery cells',
     'C12': 'recorded conditional draw vs independent Schur complement + statistical layer',
-    'C13': 'density vs independent MVN reference + representation/batch differentials + CDF references',
+    'C13': 'density vs independent MVN reference + representation/dtype/batch differentials + CDF references',
     'C14': 'behaviour-fingerprint differential across serialisation round trips',
-    'C15': 'icontract global-RNG snapshot contract + interleaved-history replay differential',
+    'C15': 'icontract global-RNG snapshot contract (also under the repository test suite) + interleaved-history replay differential',
     'C16': 'post-fit structural contract (union-find, proximity, shape, Kruskal weight) on fitted vines',
-    'C17': 'variable-keyed reference recursion for edge inputs, h-functions and likelihood + sampling bands',
+    'C17': 'variable-keyed reference recursion for edge inputs, h-functions and likelihood + RNG-interposition Rosenblatt check and bands on samples',
     'C18': 'per-lane sign-change oracle + lane-independence differential + bracket contracts',
     'C19': 'refit-history differential + np.empty poison differential + misuse contracts',
-    'C20': 'deep argument-snapshot contract on every entry point (also under other workloads) + plot trace oracle',
+    'C20': 'deep argument-snapshot contract on every entry point (also under other monitors\' workloads and the repository test suite) + plot trace oracle',
 }
 
 TEXT = ('Exploration by runtime monitoring: the real code in /repo is executed on seeded generated '
